@@ -284,6 +284,34 @@ def main():
   for k, (kf, v) in sorted(reproduced.items()):
     print(f'KNOWN-FINDING: property={pid} {kf["id"]} {kf["what"]}')
 
+  # ---- search phase: a proof obligation or a correspondence no longer checks but no
+  # oracle has produced a failing input yet: look for one with further generator seeds
+  # (never runs on a tree where everything checks) ----
+  search = {'rounds': 0, 'found': False}
+  if broken and not unlisted and not a.replay and any(
+      'harness' not in b['what'] or True for b in broken):
+    rounds = int(os.environ.get('VERIF_SEARCH_ROUNDS', '3'))
+    for extra in range(1, rounds + 1):
+      s2 = seed + 7919 * extra
+      search['rounds'] = extra
+      for i, step in enumerate(spec['steps']):
+        if step.get('tier') == 'thorough' and tier != 'thorough':
+          continue
+        out_json = os.path.join(VERIF, 'replays', f'.{pid}_s{extra}_{i}_{os.getpid()}.json')
+        res, log = run_step(step, tier, s2, out_json, pid)
+        if os.path.exists(out_json):
+          os.remove(out_json)
+        if res is None:
+          continue
+        for v in res.get('oracle_violations', []):
+          if v.get('key', '').startswith(pid + ':') and not any(
+              k['key'] == v.get('key') for k in open_known):
+            unlisted.append(dict(v, found_by=f'search phase, generator seed {s2} '
+                                             f'(VERIF_SEED={s2} ./check {pid} replays it)'))
+      if unlisted:
+        search['found'] = True
+        break
+
   exit_code = 0
   replay_path = None
   if unlisted:
@@ -325,6 +353,7 @@ def main():
                             ('mismatches', 'samples', 'oracle_violations')}
                            for r in results],
           'broken_obligations': broken,
+          'failing_input_search': search,
           'known_findings_reproduced': sorted(reproduced),
           'coqchk': coqchk, 'notes': notes,
       },
